@@ -263,47 +263,77 @@ def rule_holesib(ctx, prop: str) -> RuleResult:
 
 def rule_condspec(ctx, prop: str) -> RuleResult:
     """Accepting conditions must imply their specification (propositional check over the
-    syntactic atoms of the condition, by truth table — no solver):
-      * unification of two index comparisons may ignore the operator only when both are
-        the same operator or both are inequalities (an `==` never unifies with `<`);
-      * divide_with_recompute may use the closed form  E - E % s  for  (E / c) * s  only
-        when c == s."""
+    syntactic atoms of the condition, by truth table — no solver).  `accept` rows: the
+    test of the branch that takes the shortcut must imply the spec.  `reject` rows: for
+    `if T: raise`, NOT T (what gets through) must imply the spec.  Typical breakage: an
+    `and` that became `or`, a dropped conjunct."""
     from ..boolform import atoms, implies, parse, to_form
 
     ix, adts = ctx.ix, ctx.adts
     res = RuleResult("CONDSPEC")
-    specs = []
-    if prop in ("C05",):
-        specs.append((U, "Unification.unify_e", "inequality_ops",
-                      "{P}.op == {B}.op or ({P}.op in inequality_ops and {B}.op in inequality_ops)",
-                      "two comparisons are unified up to their operator although one is `==` and the other an inequality: `if i == m` becomes an instance of a callee guarded by `if i < bound`"))
-    if prop in ("C01", "C04"):
-        specs.append(("src/exo/rewrite/LoopIR_scheduling.py", "DoDivideWithRecompute", "outer_hi.op",
-                      "isinstance(outer_hi, LoopIR.BinOp) and outer_hi.op == '/' and isinstance(outer_hi.rhs, LoopIR.Const) and outer_hi.rhs.val == outer_stride",
-                      "the closed form `E - E % stride` is used for outer_hi = E / c without requiring c == stride: the legality check `outer_hi * stride <= hi` is then made on the wrong quantity and the rewritten loop runs past the buffer"))
-    for file, qn, marker, spec_src, why in specs:
+    S_ = "src/exo/rewrite/LoopIR_scheduling.py"
+    TC_ = "src/exo/frontend/typecheck.py"
+    # (props, file, function, mode, marker in the test, spec, why)
+    table = [
+        (("C05",), U, "Unification.unify_e", "accept", "inequality_ops",
+         "{P1}.op == {P2}.op or ({P1}.op in inequality_ops and {P2}.op in inequality_ops)",
+         "two comparisons are unified up to their operator although one is `==` and the other an inequality: `if i == m` becomes an instance of a callee guarded by `if i < bound`"),
+        (("C01", "C04"), S_, "DoDivideWithRecompute", "accept", "outer_hi.op",
+         "isinstance(outer_hi, LoopIR.BinOp) and outer_hi.op == '/' and isinstance(outer_hi.rhs, LoopIR.Const) and outer_hi.rhs.val == outer_stride",
+         "the closed form `E - E % stride` is used for outer_hi = E / c without requiring c == stride: the legality check `outer_hi * stride <= hi` is then made on the wrong quantity and the rewritten loop runs past the buffer"),
+        (("C01",), S_, "DoProductLoop", "reject", "is_const_zero",
+         "is_const_zero(inner_loop.lo) and is_const_zero(outer_loop.lo)",
+         "product_loop needs BOTH loops to start at 0 (i = k / inner_hi, j = k % inner_hi)"),
+        (("C01",), S_, "DoProductLoop", "reject", "len(body)",
+         "len(body) == 1 and isinstance(body[0]._node, LoopIR.For)",
+         "the inner loop must be the only statement of the outer loop"),
+        (("C01",), S_, "DoProductLoop", "reject", "inner_hi",
+         "isinstance(inner_hi, LoopIR.Const)",
+         "the inner bound must be a literal"),
+        (("C03",), TC_, "TypeChecker.check_e", "reject", "LoopIR.Const",
+         "rhs.type == T.int and isinstance(rhs, LoopIR.Const)",
+         "the divisor of an index `/`/`%` must be an integer literal (the SMT encodings assert it)"),
+        (("C12",), S_, "DoSimplify.map_s", "accept", "hi.val",
+         "isinstance(hi, LoopIR.Const) and isinstance(lo, LoopIR.Const) and hi.val == lo.val",
+         "a loop is deleted only when both bounds are literals and equal"),
+        (("C01", "C04"), S_, "DoFissionAfterSimple.alloc_check", "reject", "post_FV",
+         "nm not in post_FV",
+         "fission must not hide an allocation from a later use"),
+    ]
+    n_rows = 0
+    for props, file, qn, mode, marker, spec_src, why in table:
+        if prop not in props:
+            continue
+        n_rows += 1
         f = ix.func(file, qn)
         res.analysed.append(f"{file}:{qn}")
         ps = f.params()
-        cands = [n for n in f.body_nodes() if isinstance(n, ast.If) and marker in ast.unparse(n.test)]
+        def rejects(body):
+            return always_raises(body) or any(isinstance(x, ast.Call) and last_name(x) in ("err", "err_handler") for st in body for x in ast.walk(st))
+
+        cands = [n for n in f.body_nodes() if isinstance(n, ast.If) and marker in ast.unparse(n.test) and (mode == "accept" or rejects(n.body))]
         if not cands:
-            raise AnalysisError(f"anchor vanished: condition mentioning `{marker}` in {qn}")
+            # the guard disappeared altogether
+            res.instances += 1
+            res.ob(False)
+            res.add(Finding("CONDSPEC", file, f.lineno, qn, marker, f"no {'raising ' if mode == 'reject' else ''}condition mentioning `{marker}` is left in {qn}: {why}"))
+            continue
+        spec = spec_src
+        if "{P1}" in spec:
+            spec = spec.replace("{P1}", ps[1]).replace("{P2}", ps[2])
+        sp = parse(spec)
         for n in cands:
+            test = to_form(n.test)
+            if not (atoms(sp) & atoms(test)):
+                continue  # another test that merely mentions the marker
             res.instances += 1
             res.nontrivial += 1
-            spec = spec_src
-            if "{P}" in spec:
-                spec = spec.replace("{P}", ps[1]).replace("{B}", ps[2])
-            test = to_form(n.test)
-            sp = parse(spec)
-            # the specification must be expressible over the test's atoms (else the
-            # shape changed and the rule cannot decide)
-            unknown = atoms(sp) - atoms(test)
-            ok, cex = implies(test, sp)
+            t = ("not", test) if mode == "reject" else test
+            ok, cex = implies(t, sp)
             res.ob(ok)
-            res.sample(f"{qn}: `{ast.unparse(n.test)[:100]}` implies the specified condition: {ok}")
+            res.sample(f"{qn}: {'NOT ' if mode == 'reject' else ''}`{ast.unparse(n.test)[:90]}` implies `{spec[:80]}`: {ok}")
             if not ok:
                 shown = ", ".join(f"{k}={v}" for k, v in sorted(cex.items()) if k in atoms(sp))
-                res.add(Finding("CONDSPEC", file, n.lineno, qn, marker, f"{why} (accepted although: {shown})"))
-    res.floor = len(specs)
+                res.add(Finding("CONDSPEC", file, n.lineno, qn, marker, f"{why} (gets through although: {shown})"))
+    res.floor = n_rows
     return res
